@@ -100,6 +100,19 @@ def run(ctx):
                   f"({[norm(r.value) for r in rets if r.value is not None and not _bool_expr(r.value)]}): every "
                   f"non-zero value is truthy, so a < b and b < a can both hold", expr=f"{c.name}.__lt__ returns",
                   site=f"{c.name}.__lt__: boolean result")
+        if c.name in ("ValueSet", "ValueMap", "ValueObject"):
+            # payloads that are host sets / dicts: `<` between them is the proper-subset test (a partial order) or a
+            # TypeError - never the total order that sorted views and canonical rendering need
+            bad_ = [n for n in ast.walk(lt.node) if isinstance(n, ast.Compare) and len(n.ops) == 1
+                    and isinstance(n.ops[0], (ast.Lt, ast.Gt, ast.LtE, ast.GtE))
+                    and norm(n.left) in ("self.value", f"{other}.value")
+                    and norm(n.comparators[0]) in ("self.value", f"{other}.value")]
+            ctx.check("C07.payload", lt, bad_[0] if bad_ else None, not bad_,
+                      f"{c.name}.__lt__ orders two values by the host comparison of their "
+                      f"{'set' if c.name == 'ValueSet' else 'dict'} payloads: that is inclusion (incomparable sets are "
+                      f"neither < nor >) or a TypeError, so sorting and the canonical rendering depend on insertion "
+                      f"order", expr=f"{c.name}.__lt__ host payload order",
+                      site=f"{c.name}.__lt__: no host `<` between set / dict payloads")
         if c.name in DEFINED:
             from .common import decision_list
             dl = decision_list(lt.node)
@@ -309,6 +322,35 @@ def minmax(ctx, model):
                   f"core.ckl {name} compares with {sorted(ops)} (expected only `{op}`): ties or the direction of the "
                   f"scan change, so {name} disagrees with the order on equal or reversed inputs",
                   expr=f"{name} comparison operators", site=f"modules/core.ckl: {name} uses only `{op}`")
+        # what the scan keeps: `best key := the key just compared` and `best element := the element it came from`
+        fi = next((i for i, t in enumerate(body) if t.is_id("for")), None)
+        ok_keep = False
+        why = "scan not understood"
+        if fi is not None and fi + 1 < len(body):
+            elem = body[fi + 1].text
+            keyed = None
+            for i in range(fi, len(body) - 6):
+                if body[i].is_id("def") and body[i + 2].is_p("=") and body[i + 3].is_id("key") and body[i + 4].is_p("(") \
+                        and body[i + 5].text == elem:
+                    keyed = body[i + 1].text
+            best = next((c[2] for c in cmps if c[0] == keyed), None) if keyed else None
+            if keyed and best:
+                assigns = {}
+                for i in range(fi, len(body) - 3):
+                    if body[i].kind == "id" and body[i + 1].is_p("=") and not body[i - 1].is_id("def") \
+                            and body[i + 2].kind == "id" and body[i + 3].is_p(";"):
+                        assigns.setdefault(body[i].text, set()).add(body[i + 2].text)
+                items = [k for k, v in assigns.items() if v == {elem} and k != best]
+                ok_keep = assigns.get(best) == {keyed} and len(items) == 1
+                why = f"the loop keeps `{best} = {sorted(assigns.get(best, []))}` and element holder(s) {items} " \
+                      f"(expected `{best} = {keyed}` and exactly one `<holder> = {elem}`)"
+                if ok_keep:
+                    # the holder is what the list form returns
+                    ok_keep = any(body[i].is_id("return") and body[i + 1].text == items[0] for i in range(len(body) - 1))
+                    why = f"the list form does not return `{items[0]}`"
+        ctx.check("C07.minmax", f"modules/core.ckl:{name}", None, ok_keep,
+                  f"core.ckl {name}: {why}: later elements are compared against something that is not the best key so "
+                  f"far", expr=f"{name} keeps key and element", site=f"modules/core.ckl: {name} keeps (best key, its element)")
         loops = [i for i, t in enumerate(body) if t.is_id("for")]
         ok = len(loops) == 1
         ctx.check("C07.minmax", f"modules/core.ckl:{name}", None, ok,
